@@ -11,6 +11,8 @@ UNITS = {
     "u10_changes": {"verus": "specs/u10_changes.vt.rs"},
     "u13_load": {"verus": "specs/u13_load.vt.rs"},
     "u06v_hexane_str": {"verus": "specs/u06v_hexane_str.vt.rs"},
+    "u05v_sync_flags": {"verus": "specs/u05v_sync_flags.vt.rs"},
+    "u14_loadopts": {"verus": "specs/u14_loadopts.vt.rs"},
 }
 CHUNK = "rust/automerge/src/storage/chunk.rs"
 EXID = "rust/automerge/src/exid.rs"
@@ -43,6 +45,9 @@ HARNESSES = {
                            "stubs": ["hash -> hash_stub"], "timeout_s": 900},
     "u03_header_parse_t": {"crate": "automerge", "file": CHUNK, "fn": "Header::parse, Header::write", "mode": "bounded", "bound": "all inputs of <= 24 bytes; SHA-256 stubbed",
                            "stubs": ["hash -> hash_stub"], "tier": "thorough", "timeout_s": 1800},
+    "u03_header_parse_long": {"crate": "automerge", "file": CHUNK, "fn": "Header::parse", "mode": "bounded",
+                              "bound": "every 11-byte header in front of 130 zero data bytes, every cut (a chunk whose length field needs two LEB128 bytes); SHA-256 stubbed",
+                              "stubs": ["hash -> hash_stub"], "timeout_s": 900},
     "u03_checksum_valid": {"crate": "automerge", "file": CHUNK, "fn": "Header::checksum_valid, CheckSum::from(ChangeHash), ChangeHash::checksum", "mode": "complete",
                            "bound": "all 32-byte hashes x all 4-byte checksums (loop-free)"},
     "u03_chunktype_codes": {"crate": "automerge", "file": CHUNK, "fn": "ChunkType::try_from(u8), u8::from(ChunkType)", "mode": "complete", "bound": "all u8 (loop-free)"},
@@ -80,6 +85,8 @@ HARNESSES = {
     # ---- U07 autoserde
     "u07_map_announces_true_length": {"crate": "automerge", "file": "rust/automerge/src/autoserde.rs", "fn": "AutoSerdeMap::serialize", "mode": "bounded", "bound": "trait-contract instance: nested empty map inside a root of arbitrary length"},
     "u07_root_map_announces_its_length": {"crate": "automerge", "file": "rust/automerge/src/autoserde.rs", "fn": "AutoSerdeMap::serialize", "mode": "bounded", "bound": "trait-contract instance: empty root"},
+    "u07_scalar_faithful": {"crate": "automerge", "file": "rust/automerge/src/autoserde.rs", "fn": "AutoSerdeVal::serialize (scalar arm), ScalarValue: Serialize", "mode": "complete",
+                            "bound": "all Int / Uint / Timestamp / Counter / Boolean / Null values (loop-free); Str / Bytes / F64 / Unknown not covered"},
     # ---- U08 text width
     "u08_width_laws_q": {"crate": "automerge", "file": TYPES, "fn": "TextEncoding::width", "mode": "bounded", "bound": "all valid UTF-8 strings of <= 2 bytes", "timeout_s": 1500},
     "u08_width_laws_t3": {"crate": "automerge", "file": TYPES, "fn": "TextEncoding::width", "mode": "bounded", "bound": "all valid UTF-8 strings of <= 3 bytes", "tier": "thorough", "timeout_s": 3600},
@@ -153,27 +160,32 @@ PROPERTIES.update({
     "C13": {
         "level": "proof",
         "verus": [("u02_parse", ["take_1", "take_n", "take_4", "take1", "take4", "rest", "take_rest", "leb128_u64", "leb128_u32", "new", "lift", "split", "truncate", "skip", "reset", "is_empty"]),
-                  ("u13_load", ["load_changes", "reset", "is_empty"])],
-        "kani": ["u03_header_parse_q", "u03_header_parse_t"],
-        "not_under_contract": ["storage::load::load_next_change (assumed: accepts exactly the leading chunk or fails without side effect)", "Automerge::load_with_options (OnPartialLoad policy; D8 repaired there, not decided)", "Chunk::parse dispatch and chunk bodies"],
+                  ("u13_load", ["load_changes", "reset", "is_empty"]),
+                  ("u14_loadopts", ["load_with_options_and_mark_validation"])],
+        "kani": ["u03_header_parse_q", "u03_header_parse_t", "u03_header_parse_long"],
+        "not_under_contract": ["storage::load::load_next_change (assumed: accepts exactly the leading chunk or fails without side effect)", "Chunk::parse dispatch and chunk bodies, Document::reconstruct, Change::new_from_unverified (assumed stubs)",
+                               "Automerge::apply_changes (assumed: appends the given changes)"],
         "assumptions": ["input slices are shorter than usize::MAX (Input::wf)"],
         "explanation": "Verus proves for inputs of ANY length that take_n/take_1/take_4 return Incomplete exactly when fewer bytes remain than asked (never Ok, never a panic) and that leb128_u64 "
                        "returns Incomplete exactly when the input ends inside an encoding; Kani shows for every header shape that every strict prefix of header++data makes Header::parse return Incomplete; "
                        "Verus proves on the real load loop storage::load::load_changes (against an assumed contract of load_next_change) that the result is Complete exactly when the input is a sequence of acceptable "
-                       "chunks with nothing left over, and that the changes handed on are those of every chunk fully inside the input, in order. The OnPartialLoad policy in load_with_options is not under contract.",
+                       "chunks with nothing left over, and that the changes handed on are those of every chunk fully inside the input, in order; and on the real Automerge::load_with_options_and_mark_validation "
+                       "(against an assumed environment, two expressions substituted by trusted wrappers) that a strict load fails unless the tail loaded completely -- whatever the verification mode or the first chunk's kind -- "
+                       "and that a lenient load applies every change loaded before the broken chunk (the obligation that reports D8).",
     },
     "C14": {
         "level": "proof",
-        "verus": [("u03_chunk", "*")],
-        "kani": ["u03_checksum_valid", "u03_chunktype_codes", "u03_header_parse_q", "u03_header_parse_t"],
-        "not_under_contract": ["the call of checksum_valid from load (automerge.rs load_with_options / storage::load)", "Document/Change/Bundle body parsers", "SHA-256 collision resistance (cryptographic assumption)"],
+        "verus": [("u03_chunk", "*"), ("u14_loadopts", ["load_with_options_and_mark_validation"])],
+        "kani": ["u03_checksum_valid", "u03_chunktype_codes", "u03_header_parse_q", "u03_header_parse_t", "u03_header_parse_long"],
+        "not_under_contract": ["the call of checksum_valid from storage::load::load_next_change (tail chunks)", "Document/Change/Bundle body parsers", "SHA-256 collision resistance (cryptographic assumption)"],
         "trusted": ["sha2::Sha256 uninterpreted"],
-        "explanation": "Structural part only: checksum_valid compares all four checksum bytes with the first four hash bytes (complete over all values); the magic and type bytes are checked by Header::parse; "
+        "explanation": "Structural part only: load_with_options returns a document only if the first chunk's checksum_valid() held (V, real function); Chunk::checksum_valid is true only if the body's checksum "
+                       "matches, for every chunk variant (V); Header::checksum_valid compares all four checksum bytes with the first four hash bytes (complete over all values); the magic and type bytes are checked by Header::parse; "
                        "every wire byte outside magic/checksum is in the SHA-256 preimage (Verus, hash) and the parsed length is the wire length (canonical header).",
     },
     "C30": {
         "level": "proof",
-        "verus": [("u04_ids", ["exid_to_opid", "get_actor_safe", "new"])],
+        "verus": [("u04_ids", ["exid_to_opid", "get_actor_safe", "new", "remove_actor", "rewrite_with_new_actor"])],
         "kani": ["u04_opid_order", "u04_opid_actor_shift", "u04_opid_new"],
         "not_under_contract": ["OpSet::lookup_actor (binary search; assumed contract, rests on the sorted duplicate-free actor table)", "OpSet::insert_actor column rewrite", "get_obj_meta"],
         "assumptions": ["a document has at most u32::MAX actors"],
@@ -212,7 +224,7 @@ PROPERTIES.update({
     },
     "C17": {
         "level": "proof",
-        "verus": [("u02_parse", ["take_n", "take_1", "take_4", "take1", "take4", "rest", "take_rest", "leb128_u64", "leb128_i64", "leb128_u32", "nonzero_leb128_u64", "change_hash", "utf_8"]),
+        "verus": [("u02_parse", ["take_n", "take_1", "take_4", "take1", "take4", "rest", "take_rest", "leb128_u64", "leb128_i64", "leb128_u32", "nonzero_leb128_u64", "length_prefixed_bytes", "change_hash", "utf_8"]),
                   ("u01_bloom", ["parse", "default", "get_probes", "contains_hash", "add_hash"])],
         "kani": ["u01_parse_wf_quick", "u01_parse_wf_thorough", "u01_bits_capacity_total", "u06_string_unpack_huge_len", "u02k_length_prefixed_total", "u02k_apply_n_total",
                  "u01_add_contains_3x0", "u01_query_total"],
@@ -229,7 +241,8 @@ PROPERTIES.update({
                   ("u04c_codecs", ["to_bytes", "try_from", "parse_0", "lemma_exid_roundtrip", "lemma_cursor_roundtrip", "leb128_u64", "take_n", "take1", "take_1",
                                    "lemma_dec_enc", "lemma_lebk", "lemma_decode_of_encode", "lemma_shape_is_canonical", "lemma_leb_shape", "lemma_leb_value", "lemma_leb_len_u64",
                                    "lemma_shape_unique", "lemma_valk_shift", "lemma_valk_prefix", "lemma_step", "lemma_step_top", "lemma_or_add", "lemma_or_add_top", "lemma_p128_shift"]),
-                  ("u01_bloom", ["to_bytes", "parse", "default", "leb128_u32"])],
+                  ("u01_bloom", ["to_bytes", "parse", "default", "leb128_u32"]),
+                  ("u05v_sync_flags", ["parse", "encode", "new", "contains", "set"])],
         "kani": ["u03_leb128_writer_matches_parser", "u05_flags_roundtrip", "u05_flags_set_contains", "u05_flags_parse_bytes", "u01_roundtrip_1", "u01_roundtrip_3",
                  "u04_exid_try_from_total_q", "u06_leb_unsigned_roundtrip", "u06_leb_signed_roundtrip"],
         "not_under_contract": ["Cursor::from_str / Display and ExId Display / import_obj (string forms)", "sync::Message::encode/decode, State::encode/decode",
@@ -241,11 +254,11 @@ PROPERTIES.update({
                        "Message/State codecs and the string forms are NOT under contract.",
     },
     "C32": {
-        "level": "other",
+        "level": "proof",
         "verus": [],
-        "kani": ["u07_map_announces_true_length", "u07_root_map_announces_its_length"],
-        "not_under_contract": ["AutoSerdeSeq / AutoSerdeVal", "ReadDoc::get/keys/length/text of a real document (winners only, text as strings)", "maps with >= 1 entry (Keys cannot be built outside a document)"],
-        "explanation": "BOUNDED (maps with zero entries): AutoSerdeMap::serialize is verified against the ReadDoc / Serializer TRAIT CONTRACTS with a harness-local ReadDoc of arbitrary reported lengths and a recording Serializer: the announced map "
+        "kani": ["u07_scalar_faithful", "u07_map_announces_true_length", "u07_root_map_announces_its_length"],
+        "not_under_contract": ["AutoSerdeSeq, AutoSerdeVal container arms and Str/Bytes/F64 scalars", "ReadDoc::get/keys/length/text of a real document (winners only, text as strings)", "maps with >= 1 entry (Keys cannot be built outside a document)"],
+        "explanation": "Two leaves. (1) complete: AutoSerdeVal exports every Int/Uint/Timestamp/Counter/Boolean/Null scalar as itself (which serde primitive, which value) for ALL values. (2) BOUNDED (maps with zero entries): AutoSerdeMap::serialize is verified against the ReadDoc / Serializer TRAIT CONTRACTS with a harness-local ReadDoc of arbitrary reported lengths and a recording Serializer: the announced map "
                        "length equals the number of entries written and doc.length(the map being serialized). Complete for the explored contract instance (empty map nested in a root of any length).",
     },
     "C35": {
